@@ -462,9 +462,20 @@ def exec_pipe(ctx, h, scratch):
         # run_pipe returns font + dump for ttx; the font comes first
         i = out.find(b"<?xml")
         out = out[:i] if i > 0 else out
+    extra = None
+    if h["pipe"] == "woff2rt" and out[:4] == b"wOF2" and len(out) >= 12:
+        # the WOFF2 file followed by what decompressing it gave: both are outputs to validate
+        n = struct.unpack_from(">L", out, 8)[0]
+        n = (n + 3) & ~3 if out[n : (n + 3) & ~3].strip(b"\0") == b"" and len(out) >= ((n + 3) & ~3) and out[(n + 3) & ~3 : ((n + 3) & ~3) + 4] in (b"\0\1\0\0", b"OTTO", b"true") else n
+        out, extra = out[:n], out[n:]
     res["nontrivial"] = True
     probes["pipe." + h["pipe"]] = 1
     kind, members, errs = validate(out, probes)
+    if extra is not None and not errs:
+        k2, m2, e2 = validate(extra, probes, "sfnt")
+        if e2:
+            errs = ["decompressed: " + x for x in e2]
+            kind = "sfnt-from-woff2"
     events.append([h["pipe"], str(h.get("input"))[:60], prng.bdigest(out), len(errs)])
     res["states"].append("%s|%s" % (h["pipe"], h.get("input")))
     where = " [pipeline %s input=%s seed=%s]" % (h["pipe"], h.get("input"), h.get("seed"))
